@@ -37,7 +37,7 @@ CLAIMS = {
     ),
     "C05": dict(
         technique="static analysis: raise-site classification, validate-before-write ordering at every explicit rejection, effect footprint of swap/shuffle, dropped-parameter rule for wrappers",
-        text="Narrow: decides (a) that edits rejected for a missing/invalid ID raise the library's own error type at every explicit raise and every caller-keyed plain-container access, (b) that double_edge_swap and random_edge_shuffle insert/delete no key and touch no attribute or counter, (c) that aliases and thin wrappers forward every parameter, (d) that every explicit rejection (raise statement) in a mutator is reached before any table write of the rejected item, (e) that direction="in"/"out" edits the tail/head side, clear()/clear_edges() have exactly their documented table footprint, update() forwards what it is given, and the "first" options of merge_duplicate_edges pick the smallest ID. Equality with a reference model after edit sequences is NOT decided.",
+        text="Narrow: decides (a) that edits rejected for a missing/invalid ID raise the library's own error type at every explicit raise and every caller-keyed plain-container access, (b) that double_edge_swap and random_edge_shuffle insert/delete no key and touch no attribute or counter, (c) that aliases and thin wrappers forward every parameter, (d) that every explicit rejection (raise statement) in a mutator is reached before any table write of the rejected item, (e) that direction 'in'/'out' edits the tail/head side, clear()/clear_edges() have exactly their documented table footprint, update() forwards what it is given, and the 'first' options of merge_duplicate_edges pick the smallest ID. Equality with a reference model after edit sequences is NOT decided.",
         ref="3 C05",
     ),
     "C06": dict(
